@@ -42,7 +42,7 @@ CHECKS = {
             "Trusted: the independent reader (refread.rs) and the C08 canonical comparator. More than 3 pages or more simultaneous deviations are not covered.",
             "§5 C10"),
     "C09": ("model_checking",
-            "exhaustive enumeration of all operation histories up to depth 4 (quick) / 5 (thorough) over a 26-symbol alphabet on a real Storage x 4 base files x cached/uncached, and of all histories of <=3 operations + save through the File interface (save_to a path, reload), checked step by step against a map reference model, an independent structural reader and a reload",
+            "exhaustive enumeration of all operation histories up to depth 4 (quick) / 5 (thorough) over a 27-symbol alphabet on a real Storage x 4 base files x cached/uncached, and of all histories of <=3 operations + save through the File interface (save_to a path, reload), checked step by step against a map reference model, an independent structural reader and a reload",
             "Every history of create (plain values and a typed value whose conversion creates a second object) / update (direct, compressed, stream, created, fulfilled objects, object 0, a number that is free in one base) / promise / fulfil / typed read / save / unserialisable-update / repair is executed on the real Storage and Updater; after each step all tracked references are read (resolve and cached typed get incl. Stream::data); after each save: prefix preservation, independent structural validation and value comparison, reload and comparison of written and untouched objects; failing saves must fail cleanly and not wedge the document.",
             "Trusted: reference model (BTreeMap), the independent reader. Known finding: repeated dictionary updates merge. Histories longer than the depth bound are not covered.",
             "§5 C09"),
